@@ -863,7 +863,7 @@ func (vc *VC) fired(cl *Clause) {
 	vc.firedCS[cl] = true
 }
 
-var groupRe = regexp.MustCompile(`(?:^|[:#]|loop[0-9]+\.)([A-Za-z][A-Za-z0-9.]*)/[A-Za-z]`)
+var groupRe = regexp.MustCompile(`(?:^|[:#]|loop[0-9]+\.|#[0-9]+\.)([A-Za-z][A-Za-z0-9.]*)/[A-Za-z]`)
 
 // obligationGroup: the proof group of an obligation, from the clause label "G/label" in its name.
 func obligationGroup(name string) string {
